@@ -83,11 +83,20 @@ struct Model {
     poisoned: bool,
 }
 
-/// Executes the history on a fresh AtomicBaseTime; Err = first disagreement with the model.
-pub fn run_history(h: &[Op]) -> Result<(), String> {
-    let abt = AtomicBaseTime::new();
-    let mut m = Model::default();
-    for (i, op) in h.iter().enumerate() {
+/// One AtomicBaseTime next to its reference model.
+struct Inst {
+    abt: AtomicBaseTime,
+    m: Model,
+}
+
+impl Inst {
+    fn new() -> Inst {
+        Inst { abt: AtomicBaseTime::new(), m: Model::default() }
+    }
+
+    fn step(&mut self, i: usize, op: &Op) -> Result<(), String> {
+        let abt = &self.abt;
+        let m = &mut self.m;
         let at = |msg: String| format!("step {} ({}): {}", i + 1, render(&[*op]), msg);
         match *op {
             Op::Update(v) => {
@@ -121,9 +130,6 @@ pub fn run_history(h: &[Op]) -> Result<(), String> {
                 });
                 // an older base time is ignored before the pair is looked at; a poisoned try_update gives up first
                 let reaches_store = v >= m.cur && (blocking || !m.poisoned);
-                if blocking || !m.poisoned {
-                    // the lock was taken: poison cleared by update(), or not poisoned
-                }
                 match (r, reaches_store) {
                     (Err(_), true) => {
                         m.poisoned = true; // panicked while holding the writer lock
@@ -154,13 +160,61 @@ pub fn run_history(h: &[Op]) -> Result<(), String> {
                 }
             }
         }
+        Ok(())
     }
-    // after everything: the value is the newest accepted one
-    let (t, v) = catch(|| abt.snapshot()).map_err(|p| format!("final snapshot panicked: {}", p))?;
-    if t != m.cur || !CHECK.check(t, v) {
-        return Err(format!("after the history: snapshot returns base time {} expected {}", t, m.cur));
+
+    /// the value is the newest accepted one
+    fn final_check(&self, when: &str) -> Result<(), String> {
+        let (t, v) = catch(|| self.abt.snapshot()).map_err(|p| format!("{}: snapshot panicked: {}", when, p))?;
+        if t != self.m.cur || !CHECK.check(t, v) {
+            return Err(format!("{}: snapshot returns base time {} expected {}", when, t, self.m.cur));
+        }
+        Ok(())
+    }
+}
+
+/// Executes the history on a fresh AtomicBaseTime; Err = first disagreement with the model.
+pub fn run_history(h: &[Op]) -> Result<(), String> {
+    let mut inst = Inst::new();
+    for (i, op) in h.iter().enumerate() {
+        inst.step(i, op)?;
+    }
+    inst.final_check("after the history")
+}
+
+/// Two instances alive at once and used alternately by one thread: A runs `h`, B runs `h` rotated by
+/// one op; after every step of one the OTHER is snapshotted and must still hold its own newest pair
+/// (state kept outside the object - a static, a thread-local memo - shows here and nowhere else).
+pub fn run_twin(h: &[Op]) -> Result<(), String> {
+    let mut a = Inst::new();
+    let mut b = Inst::new();
+    let n = h.len();
+    for i in 0..n {
+        a.step(i, &h[i]).map_err(|e| format!("instance A {}", e))?;
+        b.final_check(&format!("instance B after A's step {} ({})", i + 1, render(&[h[i]])))?;
+        let ob = &h[(i + 1) % n];
+        b.step(i, ob).map_err(|e| format!("instance B {}", e))?;
+        a.final_check(&format!("instance A after B's step {} ({})", i + 1, render(&[*ob])))?;
     }
     Ok(())
+}
+
+fn report(rep: &mut Report, h: &[Op], twin: bool, e: String) {
+    let again = if twin { run_twin(h) } else { run_history(h) };
+    if again.is_ok() {
+        // process-global state in the code under test may make a second run take another path
+        let r = render(h);
+        let text = format!("{}: {}\nobserved: {}\n", if twin { "sequential-twin" } else { "sequential" }, r, e);
+        if !reproduces_in_fresh_process("C13", &text) {
+            machinery_failure("C13 sequential violation did not reproduce");
+        }
+    }
+    let r = render(h);
+    if twin {
+        rep.violation(Violation { key: format!("C13:seq-twin:{}", r.replace(' ', "")), summary: format!("two AtomicBaseTime instances used alternately by one thread, A runs [{}], B the same rotated by one: {}", r, e), replay_text: format!("sequential-twin: {}\nobserved: {}\n", r, e) });
+    } else {
+        rep.violation(Violation { key: format!("C13:seq:{}", r.replace(' ', "")), summary: format!("AtomicBaseTime, one thread [{}]: {}", r, e), replay_text: format!("sequential: {}\nobserved: {}\n", r, e) });
+    }
 }
 
 pub fn run(ctx: &Ctx) -> Report {
@@ -188,6 +242,13 @@ pub fn run(ctx: &Ctx) -> Report {
                     if h.iter().any(|o| matches!(o, Op::BadUpdate(_) | Op::BadTryUpdate(_))) {
                         rep.nontrivial += 1;
                     }
+                    if len >= 2 && len < depth {
+                        rep.evaluations += 1;
+                        rep.transitions += 2 * len as u64;
+                        if let Err(e) = run_twin(&h) {
+                            report(&mut rep, &h, true, e);
+                        }
+                    }
                     match run_history(&h) {
                         Ok(()) => {
                             if len == depth {
@@ -199,11 +260,7 @@ pub fn run(ctx: &Ctx) -> Report {
                             if !e.starts_with(&format!("step {} ", len)) && !e.starts_with("after the history") {
                                 continue;
                             }
-                            if run_history(&h).is_ok() {
-                                machinery_failure("C13 sequential violation did not reproduce");
-                            }
-                            let r = render(&h);
-                            rep.violation(Violation { key: format!("C13:seq:{}", r.replace(' ', "")), summary: format!("AtomicBaseTime, one thread [{}]: {}", r, e), replay_text: format!("sequential: {}\nobserved: {}\n", r, e) });
+                            report(&mut rep, &h, false, e);
                         }
                     }
                 }
@@ -212,12 +269,53 @@ pub fn run(ctx: &Ctx) -> Report {
         }
         unit += if len >= 2 { n * n } else { 1 };
     }
+    // periodic unrollings: every cycle of 1..=3 ops repeated 40 times (sequence numbers up to 120, both
+    // slots reused many times), on one instance and on two instances used alternately
+    let reps = ctx.tier.pick(40usize, 100);
+    let mut cycles = 0u64;
+    for len in 1..=3usize {
+        for c in 0..n.pow(len as u32) {
+            unit += 1;
+            if !ctx.owns(unit) {
+                continue;
+            }
+            let mut x = c;
+            let mut cycle = Vec::with_capacity(len);
+            for _ in 0..len {
+                cycle.push(ops[x % n]);
+                x /= n;
+            }
+            let h: Vec<Op> = (0..len * reps).map(|i| cycle[i % len]).collect();
+            cycles += 1;
+            rep.evaluations += 2;
+            rep.transitions += 3 * h.len() as u64;
+            if let Err(e) = run_history(&h) {
+                let at = e.strip_prefix("step ").and_then(|r| r.split(' ').next()).and_then(|k| k.parse::<usize>().ok()).unwrap_or(h.len());
+                let cut = h[..at.min(h.len())].to_vec();
+                let e2 = run_history(&cut).err().unwrap_or(e);
+                report(&mut rep, &cut, false, e2);
+            }
+            if len >= 2 {
+                if let Err(e) = run_twin(&h) {
+                    report(&mut rep, &h, true, e);
+                }
+            }
+        }
+    }
+    rep.count("cycles_unrolled", cycles);
+    rep.note(format!("sequential clause, periodic unrollings: every cycle of 1..=3 ops repeated {} times on one instance, and (cycles of 2 and 3 ops) on two instances used alternately by one thread, each against its own model; every history of 2..{} ops also runs in the two-instance form", reps, depth - 1));
     rep.max_depth = depth as u64;
     rep.note(format!("sequential clause: all histories up to length {} over {} ops (update / try_update of {:?}, update / try_update of 300 and 1000 with a voucher that does not match (the writer panics inside the lock and poisons it), snapshot, sequence) on the real AtomicBaseTime against a reference model (newest accepted pair; older ignored; a poisoned lock costs the next try_update its turn)", depth, n, VALUES));
     rep
 }
 
 pub fn replay(text: &str) -> Result<String, String> {
+    if let Some(h) = field(text, "sequential-twin").and_then(parse) {
+        return match run_twin(&h) {
+            Err(e) => Ok(e),
+            Ok(()) => Err("both instances agree with their reference models".to_string()),
+        };
+    }
     let Some(h) = field(text, "sequential").and_then(parse) else {
         machinery_failure("cannot parse sequential history");
     };
